@@ -99,6 +99,9 @@ class C09(Property):
              "regs": [["GET", "/a/:y/b"], ["GET", "/:x/a/a"], ["GET", "/a/a/:y"], ["POST", "/:x/:y/:x"]],
              "reqs": [["GET", "/a/a/a"], ["GET", "/a/a/b"], ["GET", "/a/b/b"], ["GET", "/b/a/a"], ["GET", "/b/a/b"],
                       ["PUT", "/b/a/b"], ["POST", "/1/2/3"], ["GET", "/a/a"]]},
+            # a branch that binds a variable and then fails: its binding must not be delivered
+            {"nf": False, "na": False, "regs": [["GET", "/a/:y/c/d"], ["GET", "/:x/b/c"], ["POST", "/:y/a/a"], ["POST", "/a/:x"]],
+             "reqs": [["GET", "/a/b/c"], ["POST", "/a/a/a"], ["POST", "/a/b"], ["PUT", "/a/b/c"]]},
             # custom handlers
             {"nf": True, "na": True, "regs": [["GET", "/a"], ["POST", "/:x"]],
              "reqs": [["PUT", "/a"], ["GET", "/b"], ["GET", "/a/b"], ["POST", "/"]]},
@@ -168,14 +171,35 @@ class C09(Property):
             return "/" + "/".join(segs)
         return rng.choice(["", "a", "a/b", ".", "../a"])
 
+    def _generalise(self, rng, base, names):
+        """a pattern obtained from the literal path [base] by turning some segments into variables
+        (named consistently per prefix) and possibly breaking or extending its tail: such patterns
+        share prefixes with [base] and make Search enter branches that fail further down"""
+        segs = []
+        for s in base:
+            if rng.random() < 0.45:
+                s = names.setdefault(tuple(segs), rng.choice([":x", ":y", ":z"]))
+            segs.append(s)
+        r = rng.random()
+        if r < 0.25 and segs:
+            segs[-1] = rng.choice(["a", "b", "c"])
+        elif r < 0.40:
+            segs.append(rng.choice(["a", "b", ":x", ":y"]) if rng.random() < 0.5
+                        else names.setdefault(tuple(segs), ":z"))
+        elif r < 0.50 and len(segs) > 1:
+            segs.pop()
+        return "/" + "/".join(segs)
+
     def _table(self, rng):
         wfbias = rng.random() < 0.7
-        names = {}
         nreg = rng.randint(1, 12)
         nmeth = rng.choice([1, 2, 2, 3, 4])
         meths = rng.sample(METHODS, nmeth)
         regs = []
         per_method_names = {}
+        base = None
+        if rng.random() < 0.35:
+            base = [rng.choice(["a", "b", "c"]) for _ in range(rng.choice([2, 3, 3, 4]))]
         for _ in range(nreg):
             m = rng.choice(meths)
             if rng.random() < 0.05:
@@ -183,16 +207,22 @@ class C09(Property):
             names = per_method_names.setdefault(m, {})
             if regs and rng.random() < 0.08:
                 p = rng.choice(regs)[1]          # duplicate
+            elif base and rng.random() < 0.8:
+                p = self._generalise(rng, base, names)
             else:
                 p = self._pattern(rng, names, wfbias)
             regs.append([m, p])
-        return regs
+        return regs, base
 
     def gen(self, rng, n, tier):
         cases = []
         for _ in range(n):
-            regs = self._table(rng)
+            regs, base = self._table(rng)
             reqs = []
+            if base:
+                ms = sorted(set(m for m, _ in regs if m in METHODS)) or METHODS
+                reqs.append([rng.choice(ms), "/" + "/".join(base)])
+                reqs.append([rng.choice(ms), "/" + "/".join(base[:-1] + [rng.choice(["a", "b", "c"])])])
             for _ in range(rng.randint(4, 14)):
                 m = rng.choice(METHODS)
                 if rng.random() < 0.06:
